@@ -294,7 +294,43 @@ func genClashDoc(r *rng.R, s *schemaDef) (*doc, string) {
 		}
 		*x.list = append(*x.list, &sel{kind: 'f', name: "__typename"}, &sel{kind: 'f', alias: "typename__", name: leafField})
 		return d, "typename-twin"
-	default: // operation named so that <Op>Data equals an enum's name is handled by the schema side; here: none
-		return d, "none"
+	default: // two constants of one enum get the same identifier (values that differ only in case / underscores)
+		var enumField, enumName string
+		for _, f := range dd.fields {
+			if e := s.byName[f.typ.unwrap()]; e != nil && e.kind == "enum" {
+				enumField, enumName = f.name, e.name
+			}
+		}
+		if enumField == "" {
+			return d, "none"
+		}
+		e := s.byName[enumName]
+		v := e.values[r.Intn(len(e.values))]
+		var twin string
+		switch r.Intn(3) {
+		case 0:
+			twin = strings.ToLower(v)
+			if twin == v {
+				twin = strings.ToUpper(v)
+			}
+		case 1:
+			twin = v + "_"
+		default:
+			twin = strings.ToUpper(v[:1]) + strings.ToLower(v[1:])
+			if twin == v {
+				twin = strings.ToLower(v)
+			}
+		}
+		for _, o := range e.values {
+			if o == twin {
+				return d, "none"
+			}
+		}
+		if twin == v {
+			return d, "none"
+		}
+		e.values = append(e.values, twin)
+		*x.list = append(*x.list, &sel{kind: 'f', alias: fmt.Sprintf("zq%d", r.Intn(1000)), name: enumField})
+		return d, "enum-constant-twin"
 	}
 }
